@@ -7,6 +7,17 @@ the binary payload is decoded by the independent decoder mc/ref/mgrops.py and
 
         1000 * sum(fee)  >=  100_000 + 1000 * len(payload) + 100 * sum(gas_limit)            (the statement)
 
+Three families of cases:
+  fresh    one group, one call on a fresh context: all batches of 1..N contents over the 11 templates x the configuration product;
+  long     batches of EVERY length 5..LONG_N (plus a few much longer ones) of one repeated template or of all templates in
+           rotation: what the client loses by truncating 0.1 mutez/gas per content and by dividing the branch+signature bytes
+           among the contents depends on n arithmetically, so no length of the range is skipped; autofill x the last decimal
+           digit of every per-content gas limit (0..9, or a different digit per content), fill x node constant x gas override;
+  history  2..3 fee-choosing calls (fill / fill with a gas override / autofill) on ONE context over the related group objects
+           g0 = [first], g1 = g0.ext(), g2 = g1.ext() - each built with the real builders from the previous one when first
+           needed, so they share whatever the builders share - and a fresh unrelated group on the same context.  EVERY call of
+           the sequence is judged on its own signed bytes (the user never sets a fee; results of fill are never extended).
+
 tz4 (BLS) sources: `sign()` is tried once per shard with the real key (0.85 s each, py_ecc) and its outcome is recorded
 as an outcome class (in the unchanged tree it raises: no generic encoding of a 96-byte signature — that defect belongs
 to C07/C23).  The fee question does not depend on the signature VALUE, only on its length, so all tz4 cases are judged
@@ -24,16 +35,29 @@ RULE = ('every batch (ordered sequence) of 1..N manager operations over 11 conte
         'curve tz1..tz4 x path {fill, autofill} x node hard_gas_limit_per_operation {1040000, 5200000} x account counter '
         '{0,127,128,2^32} x amount {0,1,2^40} x user overrides of gas/storage limit; autofill additionally x simulated '
         'consumed_milligas per content {0,1,999,1000,1001,10^9} x paid_storage_size_diff {0,1,257} (+allocation burn) x pending '
-        'mempool operations {0,1}; dimensions are thinned for longer batches as stated in BOUND.  distinct_nontrivial = distinct '
+        'mempool operations {0,1}; dimensions are thinned for longer batches as stated in BOUND.  LONG batches: every length '
+        '5..L and a few longer, one template repeated or all 11 in rotation, x curve; fill x node gas constant x gas override '
+        '{none, 99999}; autofill x last decimal digit of each simulated per-content gas limit (same digit for all, or digit '
+        '(7i+3) mod 10 for content i; odd positions 1 milligas short of a full unit).  HISTORIES: all sequences of 2 (and 3) calls '
+        'over {fill, fill(gas_limit=20001), autofill} x {g0=[first], g1=g0+ext, g2=g1+ext, fresh [first,ext]} on one context '
+        '(account counter 126 so counters cross 127/128 between calls), every call judged.  distinct_nontrivial = distinct '
         'cases that leave the one shape the unit tests pin (a single tz1 transfer to an implicit account on default constants): '
-        'batch of >=2, or 96-byte signature, or non-default node gas constant, or a kind other than such a transfer')
+        'batch of >=2, or 96-byte signature, or non-default node gas constant, or a kind other than such a transfer; for '
+        'histories = distinct (context, call prefix) judged')
 BOUND = {
     'quick': 'N=3: n<=2 full product (fill: 2 gas constants x 4 counters x 3 amounts x 3 override settings; autofill: n=1 all '
              '6x3 simulation results x 4 counters x 3 amounts x 3 overrides x pending{0,1}; n=2 all 36 (first,rest) milligas pairs x 3 '
-             'storage diffs); n=3: 11 first kinds x 25 pairs over 5 kinds x 2 gas constants x 2 counters (fill) / x 6 milligas (autofill)',
+             'storage diffs); n=3: 11 first kinds x 25 pairs over 5 kinds x 2 gas constants x 2 counters (fill) / x 6 milligas (autofill); '
+             'long: every n in 5..64 and 80, 100, 128 x 5 patterns (tx_tz, tx_kt_param, sr_add, origination, rotation of all 11) x 4 curves, '
+             'fill x 2 gas constants x 2 overrides, autofill x gas digits {0,1,5,9,mixed}; histories: 4 curves x 11 first x 5 ext kinds x all '
+             '144 two-call sequences over 12 actions, and for ext in {tx_tz, origination} all 512 three-call sequences over the 8 actions '
+             'without override',
     'thorough': 'N=4: fill n<=3 full product incl. 4 override settings, n=4 all 14641 kind quadruples x 2 gas constants x 2 counters; '
                 'autofill n=1 full product incl. internal operation results, n=2 36 milligas pairs x 3 storage diffs x 2 counters x 3 '
-                'overrides, n=3 36 x 3, n=4 6 milligas values',
+                'overrides, n=3 36 x 3, n=4 6 milligas values; long: every n in 5..160 and 200, 256, 400 x 8 patterns x 4 curves, fill x 2 '
+                'gas constants x 2 overrides, autofill x gas digits {0..9, mixed}; histories: 4 curves x 11 first x 11 ext kinds x all 144 '
+                'two-call sequences, all 1728 three-call sequences over 12 actions for 5 ext kinds and all 512 over the 8 actions without '
+                'override for the other 6',
 }
 ASSUMPTIONS = [
     'the node default mempool filter is minimal_fees=100 mutez, 1000 nanotez/byte of the signed operation, 100 nanotez per gas unit '
@@ -44,9 +68,12 @@ ASSUMPTIONS = [
     'the Jupyter help text that every RpcQuery renders in its constructor is stubbed (mc.simnode.disable_query_docstrings) for '
     'speed; it never reaches a request',
     'user-chosen fees (autofill(fee=..)) and a user-chosen minimal_nanotez_per_gas_unit are outside the statement and not explored',
+    'a group that already carries a fee (e.g. the RESULT of fill(), extended and filled again) is indistinguishable from a '
+    'user-chosen fee and is not explored; histories only re-use and extend the unfilled groups',
 ]
 LEVEL_TEXT = ('exhaustive over the stated alphabet of batches and configurations; the oracle is the statement itself applied to the '
-              'signed bytes; it says nothing about contents outside the alphabet (e.g. huge scripts) except that size enters linearly')
+              'signed bytes; it says nothing about contents outside the alphabet (e.g. huge scripts) except that size enters linearly, '
+              'about batches longer than the stated lengths, or about call histories longer than 3 calls on one context')
 
 TZ = 'tz1gjaF81ZRRvdzjobyfVNsAeSC6PScjfQwN'
 KT = 'KT1BEqzn5Wx8uJrZNvuS9DVHmLvG9td3fDLi'
@@ -64,6 +91,12 @@ COUNTERS = [0, 127, 128, 2 ** 32]
 AMOUNTS = [0, 1, 2 ** 40]
 HARDGAS = [1040000, 5200000]
 QUICK_REST = ('tx_tz', 'tx_kt_param', 'reveal', 'origination', 'sr_add')  # quick tier: positions 2..3 of a triple
+LONG_N = {'quick': 64, 'thorough': 160}             # long batches: every length 5..LONG_N
+LONG_EXTRA = {'quick': [80, 100, 128], 'thorough': [200, 256, 400]}
+LONG_PATTERNS = {'quick': ['tx_tz', 'tx_kt_param', 'sr_add', 'origination', 'mixed'],
+                 'thorough': ['tx_tz', 'tx_kt_param', 'reveal', 'delegation_off', 'sr_add', 'origination', 'ticket', 'mixed']}
+LONG_RESIDUES = {'quick': [0, 1, 5, 9, 'mix'], 'thorough': [0, 1, 2, 3, 4, 5, 6, 7, 8, 9, 'mix']}
+LONG_GAS_OVERRIDES = [None, 99999]
 _keys = {}
 
 
@@ -101,42 +134,48 @@ def add(g, t, amount):
     raise KeyError(t)
 
 
-def drive(case, real_bls_sign=False):
-    """Run the real client on one case.  Returns an observation dict."""
-    from pytezos.context.impl import ExecutionContext
-    from pytezos.crypto.encoding import base58_encode
-    from pytezos.operation.group import OperationGroup
-    from pytezos.rpc.shell import ShellQuery
-    from mc.ref import mgrops
-    from mc.simnode import SimNode, disable_query_docstrings
+def _imports():
+    from mc.simnode import disable_query_docstrings
     disable_query_docstrings()
 
-    curve = case['curve']
-    key = key_of(curve)
+
+def make_node(case):
+    """Simulated node + real execution context for one case (shared by every call of a history case)."""
+    from pytezos.context.impl import ExecutionContext
+    from pytezos.rpc.shell import ShellQuery
+    from mc.simnode import SimNode
+    _imports()
+    key = key_of(case['curve'])
     pkh = key.public_key_hash()
     node = SimNode(counters={pkh: case['counter']}, constants={'hard_gas_limit_per_operation': str(case['hardgas'])})
     if case.get('pending'):
         node.mempool.append({'hash': 'op', 'branch': 'B', 'signature': 'sig',
                              'contents': [{'kind': 'transaction', 'source': pkh, 'counter': str(case['counter'] + 1)}]})
-    n = len(case['kinds'])
     node.sim = {'milligas': list(case.get('milligas') or [100000]), 'storage_diff': list(case.get('storage_diff') or [0]),
                 'allocated': [bool(case.get('allocated'))]}
     if case.get('internal'):
         node.sim['internal'] = [[tuple(x) for x in case['internal']]]
-    ctx = ExecutionContext(shell=ShellQuery(node=node), key=key)
-    g = OperationGroup(context=ctx)
-    for t in case['kinds']:
-        g = add(g, t, case['amount'])
+    return node, ExecutionContext(shell=ShellQuery(node=node), key=key)
+
+
+def choose_fee(g, path, gas_override=None, storage_override=None):
+    """The real client call that chooses the fee.  Returns (filled group, None) or (None, error text)."""
     kw = {}
-    if case.get('gas_override') is not None:
-        kw['gas_limit'] = case['gas_override']
-    if case.get('storage_override') is not None:
-        kw['storage_limit'] = case['storage_override']
-    obs = {'sign': 'real'}
+    if gas_override is not None:
+        kw['gas_limit'] = gas_override
+    if storage_override is not None:
+        kw['storage_limit'] = storage_override
     try:
-        f = g.fill(**kw) if case['path'] == 'fill' else g.autofill(**kw)
+        return (g.fill(**kw) if path == 'fill' else g.autofill(**kw)), None
     except Exception as e:  # the client could not choose a fee at all
-        return {'error': f'{case["path"]} raised {type(e).__name__}: {e}'[:300]}
+        return None, f'{path} raised {type(e).__name__}: {e}'[:300]
+
+
+def sign_and_measure(f, curve, n, real_bls_sign=False):
+    """Sign the filled group `f` (n contents expected) and read fee / gas / size off the SIGNED BYTES."""
+    from pytezos.crypto.encoding import base58_encode
+    from mc.ref import mgrops
+    obs = {'sign': 'real'}
     if curve == 'tz4':
         obs['sign'] = 'dummy BLsig'
         if real_bls_sign:
@@ -151,18 +190,47 @@ def drive(case, real_bls_sign=False):
             s = f.sign()
         except Exception as e:
             return {'error': f'sign raised {type(e).__name__}: {e}'[:300]}
-    payload = s.binary_payload()
-    dec = mgrops.decode(payload, 96 if curve == 'tz4' else 64)
-    cs = dec['contents']
-    js = s.contents
-    if [(c['fee'], c['counter'], c['gas_limit'], c['storage_limit']) for c in cs] != \
-            [(int(c['fee']), int(c['counter']), int(c['gas_limit']), int(c['storage_limit'])) for c in js] or len(cs) != n:
+    try:
+        payload = s.binary_payload()
+        dec = mgrops.decode(payload, 96 if curve == 'tz4' else 64)
+        cs = dec['contents']
+        js = s.contents
+        same = [(c['fee'], c['counter'], c['gas_limit'], c['storage_limit']) for c in cs] == \
+            [(int(c['fee']), int(c['counter']), int(c['gas_limit']), int(c['storage_limit'])) for c in js]
+    except Exception as e:  # unforgeable / undecodable result of the client's own fill
+        return {'error': f'signed group cannot be forged and decoded: raised {type(e).__name__}: {e}'[:300]}
+    if not same or len(cs) != n:
         return {'error': 'decoded payload disagrees with the group JSON (forging or decoder problem)',
                 'decoded': [(c['kind'], c['fee'], c['counter'], c['gas_limit'], c['storage_limit']) for c in cs]}
     obs.update(size=len(payload), fee=sum(c['fee'] for c in cs), gas=sum(c['gas_limit'] for c in cs),
                fees=[c['fee'] for c in cs], gas_limits=[c['gas_limit'] for c in cs],
                storage_limits=[c['storage_limit'] for c in cs], counters=[c['counter'] for c in cs])
+    if len(cs) > 6:  # long batches: keep the observation readable
+        for k in ('fees', 'gas_limits', 'storage_limits', 'counters'):
+            obs[k] = obs[k][:3] + ['...'] + obs[k][-2:]
     return obs
+
+
+def kinds_of(case):
+    """Content templates of a case: explicit list, or `n` contents of a long-batch pattern."""
+    if 'kinds' in case:
+        return list(case['kinds'])
+    p = case['pattern']
+    return [TEMPLATES[i % len(TEMPLATES)] if p == 'mixed' else p for i in range(case['n'])]
+
+
+def drive(case, real_bls_sign=False):
+    """Run the real client on one fresh case (one group, one call).  Returns an observation dict."""
+    from pytezos.operation.group import OperationGroup
+    node, ctx = make_node(case)
+    g = OperationGroup(context=ctx)
+    kinds = kinds_of(case)
+    for t in kinds:
+        g = add(g, t, case['amount'])
+    f, err = choose_fee(g, case['path'], case.get('gas_override'), case.get('storage_override'))
+    if err:
+        return {'error': err}
+    return sign_and_measure(f, case['curve'], len(kinds), real_bls_sign)
 
 
 def required_nanotez(size, gas):
@@ -170,25 +238,85 @@ def required_nanotez(size, gas):
 
 
 def descriptor(case):
-    shape = 'single operation' if len(case['kinds']) == 1 else 'batch'
+    n = len(kinds_of(case))
+    shape = 'single operation' if n == 1 else 'batch' if n <= 4 else 'long batch (5 or more contents)'
     sig = '96-byte signature (tz4)' if case['curve'] == 'tz4' else '64-byte signature'
     const = 'default node gas constant' if case['hardgas'] == 1040000 else 'non-default node gas constant'
     return f'{case["path"]}: {shape}, {sig}, {const}: fee below the mempool minimum'
 
 
-def check(case, real_bls_sign=False):
-    obs = drive(case, real_bls_sign)
+def judge(obs, path, desc, what):
+    """The statement as a predicate on one observation.  Returns the list of (descriptor, detail)."""
     if 'error' in obs:
-        return [(f'{case["path"]}: ' + ('client raised instead of choosing a fee' if 'raised' in obs['error'] else obs['error']),
-                 f'{obs["error"]} case={case}')], obs
+        return [(f'{path}: ' + ('client raised instead of choosing a fee' if 'raised' in obs['error'] else obs['error']),
+                 f'{obs["error"]} {what}')]
     need = required_nanotez(obs['size'], obs['gas'])
     have = 1000 * obs['fee']
     obs['margin_mutez'] = (have - need) // 1000 if have >= need else -((need - have + 999) // 1000)
     if have < need:
-        return [(descriptor(case),
-                 f'kinds={case["kinds"]} curve={case["curve"]} fee={obs["fee"]} (per content {obs["fees"]}) size={obs["size"]} '
-                 f'gas={obs["gas"]} (per content {obs["gas_limits"]}): needs {-(-need // 1000)} mutez, short by {-obs["margin_mutez"]}')], obs
-    return [], obs
+        return [(desc, f'{what} fee={obs["fee"]} (per content {obs["fees"]}) size={obs["size"]} gas={obs["gas"]} '
+                       f'(per content {obs["gas_limits"]}): needs {-(-need // 1000)} mutez, short by {-obs["margin_mutez"]}')]
+    return []
+
+
+def check(case, real_bls_sign=False):
+    obs = drive(case, real_bls_sign)
+    kinds = kinds_of(case)
+    what = (f'kinds={kinds}' if len(kinds) <= 4 else f'{len(kinds)} contents of pattern {case.get("pattern")}') + f' curve={case["curve"]}'
+    return judge(obs, case['path'], descriptor(case), what + (f' case={case}' if 'error' in obs else '')), obs
+
+
+# ---- histories: several fee-choosing calls on related group objects sharing one context ----------------------
+def relation(calls, i):
+    """How the group of call i relates to the groups of the earlier calls (for the descriptor)."""
+    k = calls[i][1]
+    prev = [c[1] for c in calls[:i]]
+    if not prev:
+        return 'first call on a fresh context'
+    if k in prev:
+        return 'the same group object again'
+    if k == 'new' or all(p == 'new' for p in prev):
+        return 'an unrelated group on the used context'
+    if any(p != 'new' and p < k for p in prev):
+        return 'an extension of a group used before'
+    return 'a prefix of a group used before'
+
+
+def run_history(case, upto=None):
+    """case['calls'] = [[path, k, gas_override], ...] on ONE context.  k in 0,1,2: the group `first + k*ext`, each built (when
+    first needed) by extending the previous one with the real builder, so the groups share whatever the builders share;
+    k == 'new': a fresh OperationGroup [first, ext] on the same context.  Every call is judged on its own signed bytes.
+    Returns [(violations, obs)] per call."""
+    from pytezos.operation.group import OperationGroup
+    node, ctx = make_node(case)
+    chain = {}
+
+    def group(k):
+        if k == 'new':
+            return add(add(OperationGroup(context=ctx), case['first'], case['amount']), case['ext'], case['amount']), 2
+        if k not in chain:
+            chain[k] = add(OperationGroup(context=ctx), case['first'], case['amount']) if k == 0 else \
+                add(group(k - 1)[0], case['ext'], case['amount'])
+        return chain[k], k + 1
+    out = []
+    calls = case['calls'] if upto is None else case['calls'][:upto]
+    for i, (path, k, go) in enumerate(calls):
+        try:
+            g, n = group(k)
+        except Exception as e:
+            obs = {'error': f'building the group raised {type(e).__name__}: {e}'[:300]}
+        else:
+            f, err = choose_fee(g, path, go)
+            obs = {'error': err} if err else sign_and_measure(f, case['curve'], n)
+        rel = relation(calls, i)
+        desc = f'history: {path} of {rel}: fee below the mempool minimum' if i else \
+            f'history: {path}, first call on a fresh context: fee below the mempool minimum'
+        what = f'call {i + 1} of {calls} first={case["first"]} ext={case["ext"]} curve={case["curve"]}'
+        vs = judge(obs, path, desc, what)
+        if 'error' in obs and i:
+            vs = [(f'history: {path} of {rel}: ' + d.split(': ', 1)[1], det) for d, det in vs]
+        out.append((vs, obs))
+    return out
 
 
 def bucket(m):
@@ -198,7 +326,8 @@ def bucket(m):
 
 
 def nontrivial(case):
-    return (len(case['kinds']) > 1 or case['curve'] == 'tz4' or case['hardgas'] != 1040000 or case['kinds'][0] != 'tx_tz'
+    kinds = kinds_of(case)
+    return (len(kinds) > 1 or case['curve'] == 'tz4' or case['hardgas'] != 1040000 or kinds[0] != 'tx_tz'
             or case['curve'] != 'tz1')
 
 
@@ -253,14 +382,83 @@ def autofill_cases(curve, first, tier):
                     yield base('autofill', curve, kinds, milligas=[mg], counter=127)
 
 
+def long_lengths(tier):
+    """EVERY batch length of a contiguous range (what the client loses by rounding and integer division depends on n
+    arithmetically, e.g. on (32+sig) mod n), plus a few much longer ones."""
+    return list(range(5, LONG_N[tier] + 1)) + LONG_EXTRA[tier]
+
+
+def residue_milligas(res, n):
+    """Simulated consumption per content such that the gas limit autofill derives ends in a chosen decimal digit:
+    res = digit 0..9 for every content, or 'mix' = digit (7*i+3) mod 10 for content i.  Odd positions are 1 milligas short of
+    the full unit (the client must round consumption up)."""
+    return [(1000 + (res if res != 'mix' else (7 * i + 3) % 10)) * 1000 - (i % 2) for i in range(n)]
+
+
+def long_cases(path, curve, pattern, tier):
+    for n in long_lengths(tier):
+        c = {'path': path, 'curve': curve, 'pattern': pattern, 'n': n, 'hardgas': 1040000, 'counter': 127, 'amount': 1}
+        if path == 'fill':
+            for hg, go in itertools.product(HARDGAS, LONG_GAS_OVERRIDES):
+                yield dict(c, hardgas=hg, gas_override=go)
+        else:
+            for res in LONG_RESIDUES[tier]:
+                yield dict(c, milligas=residue_milligas(res, n), storage_diff=[0, 1], residue=res)
+
+
+def history_cases(curve, first, tier):
+    exts = QUICK_REST if tier == 'quick' else TEMPLATES
+    actions = [(p, k, go) for p, go in (('fill', None), ('fill', 20001), ('autofill', None)) for k in (0, 1, 2, 'new')]
+    for ext in exts:
+        c = {'mode': 'history', 'curve': curve, 'first': first, 'ext': ext, 'hardgas': 1040000, 'counter': 126, 'amount': 1,
+             'milligas': [1001, 9000, 1005999], 'storage_diff': [1]}
+        seqs = itertools.product(actions, repeat=2)
+        plain = [a for a in actions if a[2] is None]
+        if tier == 'thorough':
+            seqs = itertools.chain(seqs, itertools.product(actions if ext in QUICK_REST else plain, repeat=3))
+        elif ext in QUICK_REST[:1] + QUICK_REST[3:4]:
+            seqs = itertools.chain(seqs, itertools.product(plain, repeat=3))
+        for seq in seqs:
+            yield dict(c, calls=[list(a) for a in seq])
+
+
 def shards(tier, seed):
-    return [(path, curve, first) for path in ('fill', 'autofill') for curve in CURVES for first in TEMPLATES]
+    fresh = [(path, curve, first) for path in ('fill', 'autofill') for curve in CURVES for first in TEMPLATES]
+    hist = [('history', curve, first) for curve in CURVES for first in TEMPLATES]
+    longs = [('long-' + path, curve, pattern) for pattern in LONG_PATTERNS[tier] for path in ('fill', 'autofill') for curve in CURVES]
+    return fresh + hist + longs
+
+
+def run_history_shard(spec, tier):
+    _, curve, first = spec
+    r = Result()
+    case = None
+    for i, case in enumerate(history_cases(curve, first, tier)):
+        calls = case['calls']
+        for j, (vs, obs) in enumerate(run_history(case)):
+            r.ev()
+            r.nt(('history', curve, first, case['ext'], repr(calls[:j + 1])))
+            tag = f'history {curve} call {j + 1} ({calls[j][0]} after {calls[j - 1][0]})' if j else f'history {curve} call 1 ({calls[0][0]})'
+            r.out(f'{tag}: error' if 'error' in obs else f'{tag}: {bucket(obs["margin_mutez"])}')
+            for d, detail in vs:
+                r.viol(d, dict(case, calls=calls[:j + 1]), detail)  # the shortest history that shows it
+        if i == 0:
+            r.sample(case)
+    if case is not None:
+        r.sample(case)
+    return r
 
 
 def run_shard(spec, tier):
     path, curve, first = spec
+    if path == 'history':
+        return run_history_shard(spec, tier)
     r = Result()
-    gen = fill_cases(curve, first, tier) if path == 'fill' else autofill_cases(curve, first, tier)
+    if path.startswith('long-'):
+        path = path[5:]
+        gen = long_cases(path, curve, first, tier)
+    else:
+        gen = fill_cases(curve, first, tier) if path == 'fill' else autofill_cases(curve, first, tier)
     case = None
     for i, case in enumerate(gen):
         r.ev()
@@ -270,11 +468,12 @@ def run_shard(spec, tier):
             r.extra[obs['bls_sign']] += 1
         if nontrivial(case):
             r.nt(tuple(sorted((k, repr(v)) for k, v in case.items())))
-        n = len(case['kinds'])
+        n = len(kinds_of(case))
+        ns = f'n={n}' if n <= 4 else 'n=5..16' if n <= 16 else 'n=17..64' if n <= 64 else 'n>64'
         if 'error' in obs:
-            r.out(f'{path} {curve} n={n}: error')
+            r.out(f'{path} {curve} {ns}: error')
         else:
-            r.out(f'{path} {curve} n={n}: {bucket(obs["margin_mutez"])}')
+            r.out(f'{path} {curve} {ns}: {bucket(obs["margin_mutez"])}')
         for d, detail in vs:
             r.viol(d, case, detail)
         if i == 0:
@@ -285,8 +484,12 @@ def run_shard(spec, tier):
 
 
 def replay(case):
+    if case.get('mode') == 'history':
+        return [v for vs, _ in run_history(case) for v in vs]
     return check(case)[0]
 
 
 def observe(case):
+    if case.get('mode') == 'history':
+        return [obs for _, obs in run_history(case)]
     return drive(case)
